@@ -24,7 +24,7 @@ from lib.doubles import LN2, fr, frf
 from lib.tlc import MachineryError
 
 DT = torch.float64
-CFGS = {"quick": ["q_diff", "q_merton"], "thorough": ["q_diff", "q_merton", "t_diff", "t_merton"]}
+CFGS = {"quick": ["q_diff", "q_merton", "q_kou"], "thorough": ["q_diff", "q_merton", "q_kou", "t_diff", "t_merton"]}
 
 
 @contextlib.contextmanager
@@ -110,6 +110,38 @@ def replay(ctx: Ctx, recs: List[Dict[str, Any]]) -> None:
                 exp = 1.25 * torch.exp(drift * ks + sigma * math.sqrt(dt) * S + jm * SN + js * SY)
                 close(ctx, "scheme:merton", "generate_merton_jump differs from the compensated jump-diffusion solution on the supplied normals and jump counts", got, exp, rs,
                       {"sigma": sigma, "mu": mu, "lambda": lam, "jump_mean": jm, "jump_std": js})
+        elif scheme == "kou":
+            # the n jumps of a step have the signed log-sizes y u, 2 y u, ..., n y u (u = ln2 / 4): supplied through the public
+            # torch distributions the generator draws from (Poisson counts, Uniform directions, Exponential sizes)
+            S = torch.tensor([[float(p[1]) for p in r["path"]] for r in rs], dtype=DT)
+            SQ = torch.tensor([[float(p[3]) for p in r["path"]] for r in rs], dtype=DT)
+            NJ = torch.tensor([[float(n) for n in r["ns"]] for r in rs], dtype=DT)
+            Y = torch.tensor([[float(y) for y in r["ys"]] for r in rs], dtype=DT)
+            import torch.distributions.exponential as te
+            import torch.distributions.poisson as tp
+            import torch.distributions.uniform as tu
+            u = LN2 / 4
+            for sigma, mu, dt, lam, up_mean, down_mean, p_up in ((2.0, 4.0, 0.25, 8.0, 0.25, 0.5, 0.25), (1.0, 0.0, 1 / 16, 30.0, 0.5, 0.125, 0.75)):
+                def sizes(self, shape=torch.Size()):
+                    j = torch.arange(1, shape[-1] + 1, dtype=DT)
+                    return (j * u).expand(*shape).clone()
+
+                def directions(self, shape=torch.Size()):
+                    return torch.where(Y > 0, torch.zeros_like(Y), torch.ones_like(Y))[..., None].expand(*shape).clone()
+                try:
+                    with patched(tp.Poisson, "sample", lambda self, shape=torch.Size(): NJ.clone()), patched(te.Exponential, "sample", sizes), patched(tu.Uniform, "sample", directions):
+                        got = generate_kou_jump(N, T, init_state=(1.25,), sigma=sigma, mu=mu, dt=dt, jump_per_year=lam, jump_mean_up=up_mean, jump_mean_down=down_mean,
+                                                jump_up_prob=p_up, dtype=DT, engine=scripted_engine([Z]))
+                except Exception as ex:
+                    ctx.violation("scheme:kou:raises", f"generate_kou_jump raised {type(ex).__name__} on supplied jump counts, directions and sizes", {"error": repr(ex)[:300]})
+                    continue
+                eta_up, eta_down = 1 / up_mean, 1 / down_mean
+                m = (1 - p_up) * eta_down / (eta_down + 1) + p_up * eta_up / (eta_up - 1) - 1          # E[e^J] - 1 of the double-exponential jump
+                dc = rs[0]["drift"]
+                drift = (dc[0] * mu + dc[1] * sigma ** 2 / 2 + dc[2] * lam * m) * dt
+                exp = 1.25 * torch.exp(drift * ks + sigma * math.sqrt(dt) * S + u * SQ)
+                close(ctx, "scheme:kou", "generate_kou_jump differs from the compensated double-exponential jump-diffusion on the supplied normals, jump counts, directions and sizes "
+                      "(every jump of a step moves the price)", got, exp, rs, {"sigma": sigma, "mu": mu, "lambda": lam, "jump_mean_up": up_mean, "jump_mean_down": down_mean, "p_up": p_up})
         elif scheme == "vasicek":
             c0 = torch.tensor([[frf(p[0]) for p in r["path"]] for r in rs], dtype=DT)
             cv = torch.tensor([[frf(p[1]) for p in r["path"]] for r in rs], dtype=DT)
